@@ -6,6 +6,7 @@ From Coq Require Import Lia.
 Arguments resolve_field : simpl never.
 Arguments field_definition : simpl never.
 Arguments complete_named : simpl never.
+Arguments complete_field : simpl never.
 Arguments collect_for : simpl never.
 
 (* ------------------------------------------------------------ tactics *)
@@ -193,8 +194,30 @@ Qed.
 (* -------------------------------------------- errors, nulls and paths *)
 (* an error of a call at path [p] whose data is [v]: its path is at or below
    p and the data there is null *)
+(* the data is null at the (relative) path, or already at a prefix of it: when
+   collecting a sub-selection fails the enclosing field is nulled and errors
+   of list items completed before stay in the result *)
+Definition null_on_path (v : pv) (q : path) : Prop :=
+  exists q1 q2, q = q1 ++ q2 /\ at_path v q1 = Some PNone.
+
 Definition err_at (p : path) (v : pv) (e : error) : Prop :=
-  exists q, e_path e = p ++ q /\ at_path v q = Some PNone.
+  exists q, e_path e = p ++ q /\ null_on_path v q.
+
+Lemma null_on_path_here q : null_on_path PNone q.
+Proof. exists [], q. split; reflexivity. Qed.
+
+Lemma null_on_path_idx rs j x q :
+  nth_error rs j = Some x -> null_on_path x q -> null_on_path (PList rs) (PIdx (N.of_nat j) :: q).
+Proof.
+  intros Hn (q1 & q2 & -> & Hat). exists (PIdx (N.of_nat j) :: q1), q2. split; [reflexivity|].
+  simpl. rewrite Nat2N.id, Hn. exact Hat.
+Qed.
+
+Lemma null_on_path_key kvs k x q :
+  alookup k kvs = Some x -> null_on_path x q -> null_on_path (PDict kvs) (PKey k :: q).
+Proof.
+  intros Hl (q1 & q2 & -> & Hat). exists (PKey k :: q1), q2. split; [reflexivity|]. simpl. rewrite Hl. exact Hat.
+Qed.
 
 Definition wf_res (p : path) (r : pv * list error) : Prop :=
   Forall (err_at p (fst r)) (snd r) /\ NoDup (map e_path (snd r)).
@@ -212,7 +235,7 @@ Proof. split; simpl; constructor. Qed.
 Lemma wf_res_single p ls k : wf_res p (PNone, [Err p ls k]).
 Proof.
   split; simpl.
-  - constructor; [|constructor]. exists []. simpl. rewrite app_nil_r. auto.
+  - constructor; [|constructor]. exists []. simpl. rewrite app_nil_r. split; [reflexivity|apply null_on_path_here].
   - constructor; [simpl; tauto|constructor].
 Qed.
 
@@ -271,7 +294,7 @@ Section ExecFacts.
     (* ---- list items *)
     Definition items_err (p : path) (i : N) (rs : list pv) (e : error) : Prop :=
       exists j q x, e_path e = p ++ PIdx (i + N.of_nat j) :: q /\
-                    nth_error rs j = Some x /\ at_path x q = Some PNone.
+                    nth_error rs j = Some x /\ null_on_path x q.
 
     Lemma complete_items_wf (f : path -> pv -> result) :
       (forall p' x r, f p' x = Ok r -> wf_res p' r) ->
@@ -332,7 +355,7 @@ Section ExecFacts.
           - destruct Hc as [Hw Hn]. split; [|exact Hn]. simpl.
             eapply Forall_impl; [|exact Hw]. intros e [j [q [x [Hq [Hnth Hat]]]]].
             exists (PIdx (N.of_nat j) :: q). split; [rewrite Hq; reflexivity|].
-            simpl. rewrite Nat2N.id, Hnth. exact Hat.
+            eapply null_on_path_idx; eassumption.
           - intros p' x r' Hr'. eapply IH; [|exact Hr']. exact Hnn. }
         destruct v; try (inversion H; subst; split; [apply wf_res_nil|reflexivity]); simpl in H;
           try discriminate;
@@ -347,9 +370,82 @@ Section ExecFacts.
         subst es1. simpl. split; [apply wf_res_single|]. intros _. eexists; reflexivity.
     Qed.
 
+    (* ---- errors recorded before a sub-selection failed to collect *)
+    Definition below (p : path) (e : error) : Prop := exists x q, e_path e = p ++ x :: q.
+
+    Lemma items_partial_wf (f : path -> pv -> result) (fe : path -> pv -> list error) :
+      (forall p' x r, f p' x = Ok r -> wf_res p' r) ->
+      (forall p' x, Forall (below p') (fe p' x) /\ NoDup (map e_path (fe p' x))) ->
+      forall items p i,
+        Forall (fun e => exists j q, e_path e = p ++ PIdx (i + N.of_nat j) :: q) (items_partial f fe p i items) /\
+        NoDup (map e_path (items_partial f fe p i items)).
+    Proof.
+      intros Hf Hfe. induction items as [|x items IH]; intros p i; simpl; [split; constructor|].
+      destruct (f (p ++ [PIdx i]) x) as [r| | |] eqn:Ef;
+        try (destruct (Hfe (p ++ [PIdx i]) x) as [B N]; split; [|exact N];
+             eapply Forall_impl; [|exact B]; intros e (y & q & Hq); exists 0, (y :: q);
+             rewrite N.add_0_r, Hq, <- app_assoc; reflexivity).
+      destruct (Hf _ _ _ Ef) as [Hw Hn]. destruct (IH p (N.succ i)) as [Hw2 Hn2].
+      assert (Ha : Forall (fun e => exists j q, e_path e = p ++ PIdx (i + N.of_nat j) :: q) (snd r)).
+      { eapply Forall_impl; [|exact Hw]. intros e [q [Hq _]]. exists 0, q. rewrite N.add_0_r, Hq, <- app_assoc. reflexivity. }
+      assert (Hb : Forall (fun e => exists j q, e_path e = p ++ PIdx (i + N.of_nat j) :: q) (items_partial f fe p (N.succ i) items)).
+      { eapply Forall_impl; [|exact Hw2]. intros e [j [q Hq]]. exists (S j), q. rewrite Hq. do 3 f_equal. lia. }
+      split; [apply Forall_app; split; assumption|].
+      rewrite map_app. apply nodup_app; try assumption.
+      intros pth Hi1 Hi2. apply in_map_iff in Hi1 as [e1 [<- He1]]. apply in_map_iff in Hi2 as [e2 [Heq He2]].
+      rewrite Forall_forall in Hw, Hw2.
+      destruct (Hw _ He1) as [q1 [Hq1 _]]. destruct (Hw2 _ He2) as [j [q2 Hq2]].
+      rewrite Hq1, Hq2, <- app_assoc in Heq. apply app_inv_head in Heq. simpl in Heq. inversion Heq. lia.
+    Qed.
+
+    Lemma complete_value_partial_wf nodes : forall t p v,
+      nn_ok t = true ->
+      Forall (below p) (complete_value_partial sch tyres sub_exec nodes t p v) /\
+      NoDup (map e_path (complete_value_partial sch tyres sub_exec nodes t p v)).
+    Proof.
+      induction t as [n|t IH|t IH]; intros p v Hnn; simpl.
+      - split; constructor.
+      - simpl in Hnn.
+        assert (Hi : forall items,
+                   Forall (below p) (items_partial (complete_value sch tyres sub_exec nodes t)
+                                                   (complete_value_partial sch tyres sub_exec nodes t) p 0%N items) /\
+                   NoDup (map e_path (items_partial (complete_value sch tyres sub_exec nodes t)
+                                                   (complete_value_partial sch tyres sub_exec nodes t) p 0%N items))).
+        { intros items. destruct (items_partial_wf (complete_value sch tyres sub_exec nodes t)
+                                   (complete_value_partial sch tyres sub_exec nodes t)) with (items := items) (p := p) (i := 0%N)
+            as [A B].
+          - intros p' x r Hr. eapply complete_value_wf; eassumption.
+          - intros p' x. apply IH. exact Hnn.
+          - split; [|exact B]. eapply Forall_impl; [|exact A]. intros e [j [q Hq]]. eexists _, q. exact Hq. }
+        destruct v; simpl; try (split; constructor); try apply Hi.
+      - apply IH. destruct t; simpl in Hnn; auto; discriminate.
+    Qed.
+
     (* ---- fields *)
     Definition null_one (p : path) (r : pv * list error) : Prop :=
-      fst r = PNone -> snd r = [] \/ exists ls k, snd r = [Err p ls k].
+      fst r = PNone -> snd r = [] \/ exists es ls k, snd r = es ++ [Err p ls k].
+
+    Lemma complete_field_wf nodes t p v r :
+      nn_ok t = true ->
+      complete_field sch tyres sub_exec nodes t p v = Ok r ->
+      wf_res p r /\ null_one p r.
+    Proof.
+      intros Hnn. unfold complete_field.
+      destruct (complete_value sch tyres sub_exec nodes t p v) as [r0| |k q|k] eqn:Ec; try discriminate.
+      - intros H; inversion H; subst. apply complete_value_wf in Ec; [|exact Hnn]. destruct Ec as [Hw Hs].
+        split; [exact Hw|]. intros Hn. specialize (Hs Hn). unfold null_shape in Hs.
+        destruct t; [left; exact Hs|left; exact Hs|right]. destruct Hs as [ls ->]. exists [], ls, ENonNull. reflexivity.
+      - destruct (Nat.eqb k REJ_COERCION); [|discriminate]. intros H; inversion H; subst; clear H.
+        destruct (complete_value_partial_wf nodes t p v Hnn) as [B N].
+        split; [|intros _; right; do 3 eexists; reflexivity]. split; simpl.
+        + apply Forall_app. split.
+          * eapply Forall_impl; [|exact B]. intros e (x & q' & Hq). exists (x :: q'). split; [exact Hq|apply null_on_path_here].
+          * constructor; [|constructor]. exists []. simpl. rewrite app_nil_r. split; [reflexivity|apply null_on_path_here].
+        + rewrite map_app. apply nodup_app; [exact N|simpl; constructor; [tauto|constructor]|].
+          intros pth Hi [<-|[]]. apply in_map_iff in Hi as [e [He Hi]]. rewrite Forall_forall in B.
+          destruct (B e Hi) as (x & q' & Hq). rewrite Hq in He. simpl in He.
+          rewrite <- (app_nil_r p) in He at 2. apply app_inv_head in He. discriminate.
+    Qed.
 
     Lemma resolve_field_wf tname parent k fd nodes p r :
       nn_ok (f_type fd) = true ->
@@ -357,22 +453,17 @@ Section ExecFacts.
       wf_res p r /\ null_one p r.
     Proof.
       intros Hnn. unfold resolve_field. destruct nodes as [|node nodes]; [discriminate|].
-      assert (Hcv : forall v, complete_value sch tyres sub_exec (node :: nodes) (f_type fd) p v = Ok r ->
-                              wf_res p r /\ null_one p r).
-      { intros v Hc. apply complete_value_wf in Hc; [|exact Hnn]. destruct Hc as [Hw Hs].
-        split; [exact Hw|]. intros Hn. specialize (Hs Hn). unfold null_shape in Hs.
-        destruct (f_type fd); [left; exact Hs|left; exact Hs|right]. destruct Hs as [ls ->]. do 2 eexists; reflexivity. }
       destruct (coerce_args fd node) as [args| | |]; try discriminate.
       - destruct k; try discriminate.
-        + destruct (world p parent tname (f_name fd) args); try discriminate; try (apply Hcv).
-          intros H; inversion H; subst. split; [apply wf_res_single|]. intros _; right; do 2 eexists; reflexivity.
-        + apply Hcv.
-      - intros H; inversion H; subst. split; [apply wf_res_single|]. intros _; right; do 2 eexists; reflexivity.
+        + destruct (world p parent tname (f_name fd) args); try discriminate; try (apply complete_field_wf; exact Hnn).
+          intros H; inversion H; subst. split; [apply wf_res_single|]. intros _; right; exists []; do 2 eexists; reflexivity.
+        + apply complete_field_wf; exact Hnn.
+      - intros H; inversion H; subst. split; [apply wf_res_single|]. intros _; right; exists []; do 2 eexists; reflexivity.
     Qed.
 
     (* ---- response objects *)
     Definition groups_err (p : path) (kvs : list (str * pv)) (e : error) : Prop :=
-      exists k q x, e_path e = p ++ PKey k :: q /\ alookup k kvs = Some x /\ at_path x q = Some PNone.
+      exists k q x, e_path e = p ++ PKey k :: q /\ alookup k kvs = Some x /\ null_on_path x q.
 
     Lemma exec_groups_wf tname parent p : forall g kvs es,
       NoDup (keys g) ->
@@ -426,7 +517,7 @@ Section ExecFacts.
     eapply exec_groups_wf in He; [|exact IH|exact Hnd].
     destruct He as [Hw Hn]. split; [|exact Hn]. simpl.
     eapply Forall_impl; [|exact Hw]. intros e [k [q [x [Hq [Hl Hat]]]]].
-    exists (PKey k :: q). split; [exact Hq|]. simpl. rewrite Hl. exact Hat.
+    exists (PKey k :: q). split; [exact Hq|]. eapply null_on_path_key; eassumption.
   Qed.
 End ExecFacts.
 
@@ -455,6 +546,15 @@ Lemma errors_off_app q a b : errors_off q (a ++ b) = errors_off q a ++ errors_of
 Proof. unfold errors_off. apply filter_app. Qed.
 
 Inductive rpos := Off | Under | Above (rest : path).
+
+(* an error recording that collecting a sub-selection failed (invalid @skip /
+   @include arguments): the locality theorem is about runs without them *)
+Definition abort_err (e : error) : bool :=
+  match e_kind e, e_locs e with ECoercion, [] => true | _, _ => false end.
+Definition no_abort (es : list error) : Prop := Forall (fun e => abort_err e = false) es.
+
+Lemma no_abort_app a b : no_abort (a ++ b) <-> no_abort a /\ no_abort b.
+Proof. apply Forall_app. Qed.
 
 Section Locality.
   Variable sch : schema.
@@ -516,6 +616,7 @@ Section Locality.
     | Off => o1 = o2
     | Under => True
     | Above rest => forall r1 r2, o1 = Ok r1 -> o2 = Ok r2 ->
+                                  no_abort (snd r1) -> no_abort (snd r2) ->
                                   same_outside rest (fst r1) (fst r2) /\ eoff (snd r1) = eoff (snd r2)
     end.
 
@@ -525,27 +626,6 @@ Section Locality.
     rewrite Hq. assert (Ht : prefixb q0 (p ++ q) = true) by (eapply prefixb_trans; [exact Hp|apply prefixb_app]).
     rewrite Ht. simpl. exact IH.
   Qed.
-
-  (* what a parent learns about one child *)
-  Definition child_rel (r' : rpos) (c1 c2 : pv * list error) : Prop :=
-    match r' with
-    | Off => c1 = c2
-    | Under => eoff (snd c1) = [] /\ eoff (snd c2) = []
-    | Above rest => same_outside rest (fst c1) (fst c2) /\ eoff (snd c1) = eoff (snd c2)
-    end.
-
-  Lemma child_claim p' r' o1 o2 c1 c2 :
-    link p' r' -> oclaim r' o1 o2 -> o1 = Ok c1 -> o2 = Ok c2 ->
-    wf_res p' c1 -> wf_res p' c2 -> child_rel r' c1 c2.
-  Proof.
-    destruct r'; simpl; intros Hl Hc -> -> W1 W2.
-    - congruence.
-    - split; eapply wf_under; eassumption.
-    - apply Hc; reflexivity.
-  Qed.
-
-  Lemma child_rel_eoff r' c1 c2 : child_rel r' c1 c2 -> eoff (snd c1) = eoff (snd c2).
-  Proof. destruct r'; simpl; [intros ->; reflexivity|intros [-> ->]; reflexivity|tauto]. Qed.
 
   Section Level.
     Variable sub1 sub2 : str -> pv -> path -> list selection -> result.
@@ -569,26 +649,29 @@ Section Locality.
     Lemma items_above (f1 f2 : path -> pv -> result) p i0 rest :
       (forall j x, j <> i0 -> f1 (p ++ [PIdx j]) x = f2 (p ++ [PIdx j]) x) ->
       (forall x c1 c2, f1 (p ++ [PIdx i0]) x = Ok c1 -> f2 (p ++ [PIdx i0]) x = Ok c2 ->
+                       no_abort (snd c1) -> no_abort (snd c2) ->
                        same_outside rest (fst c1) (fst c2) /\ eoff (snd c1) = eoff (snd c2)) ->
       forall items i rs1 es1 rs2 es2,
         complete_items f1 p i items = Ok (rs1, es1) ->
         complete_items f2 p i items = Ok (rs2, es2) ->
+        no_abort es1 -> no_abort es2 ->
         (length rs1 = length rs2 /\
          forall j a b, nth_error rs1 j = Some a -> nth_error rs2 j = Some b ->
                        ((i + N.of_nat j)%N = i0 -> same_outside rest a b) /\
                        ((i + N.of_nat j)%N <> i0 -> a = b)) /\
         eoff es1 = eoff es2.
     Proof.
-      intros Hoff Hon. induction items as [|x items IH]; intros i rs1 es1 rs2 es2 H1 H2; simpl in H1, H2.
+      intros Hoff Hon. induction items as [|x items IH]; intros i rs1 es1 rs2 es2 H1 H2 NA1 NA2; simpl in H1, H2.
       - inversion H1; inversion H2; subst. split; [split; [reflexivity|]|reflexivity].
         intros [|j] a b Ha; discriminate.
       - apply obind_ok in H1 as [[a1 ea1] [Ha1 H1]]. apply obind_ok in H1 as [[rs1' es1'] [Hr1 H1]].
         apply obind_ok in H2 as [[a2 ea2] [Ha2 H2]]. apply obind_ok in H2 as [[rs2' es2'] [Hr2 H2]].
         inversion H1; inversion H2; subst; clear H1 H2. simpl.
-        destruct (IH _ _ _ _ _ Hr1 Hr2) as [[Hlen Hnth] Hes].
+        apply no_abort_app in NA1 as [NA1a NA1b]. apply no_abort_app in NA2 as [NA2a NA2b].
+        destruct (IH _ _ _ _ _ Hr1 Hr2 NA1b NA2b) as [[Hlen Hnth] Hes].
         assert (Hhead : ((i = i0 -> same_outside rest a1 a2) /\ (i <> i0 -> a1 = a2)) /\ eoff ea1 = eoff ea2).
         { destruct (N.eq_dec i i0) as [->|Hne].
-          - destruct (Hon _ _ _ Ha1 Ha2) as [Hso He]. simpl in *. split; [split; [auto|congruence]|exact He].
+          - destruct (Hon _ _ _ Ha1 Ha2 NA1a NA2a) as [Hso He]. simpl in *. split; [split; [auto|congruence]|exact He].
           - rewrite (Hoff _ _ Hne) in Ha1. rewrite Ha1 in Ha2. inversion Ha2; subst.
             split; [split; [intros; apply same_outside_refl|reflexivity]|reflexivity]. }
         destruct Hhead as [Hd He]. split; [split|].
@@ -630,8 +713,8 @@ Section Locality.
       - apply (Hsub n v p _ (Above rest) Hl).
       - destruct (resolve_type sch tyres n v); simpl; try (intros r1 r2 H; discriminate H). apply (Hsub a v p _ (Above rest) Hl).
       - destruct (resolve_type sch tyres n v); simpl; try (intros r1 r2 H; discriminate H). apply (Hsub a v p _ (Above rest) Hl).
-      - intros r1 r2 H1 H2. rewrite H1 in H2. inversion H2; subst. split; [apply same_outside_refl|reflexivity].
-      - intros r1 r2 H1 H2. rewrite H1 in H2. inversion H2; subst. split; [apply same_outside_refl|reflexivity].
+      - intros r1 r2 H1 H2 _ _. rewrite H1 in H2. inversion H2; subst. split; [apply same_outside_refl|reflexivity].
+      - intros r1 r2 H1 H2 _ _. rewrite H1 in H2. inversion H2; subst. split; [apply same_outside_refl|reflexivity].
     Qed.
 
     Lemma complete_value_above nodes : forall t p v rest,
@@ -640,8 +723,8 @@ Section Locality.
     Proof.
       induction t as [n|t IH|t IH]; intros p v rest Hnn Hl.
       - simpl complete_value. destruct v; try (apply complete_named_above; exact Hl);
-          intros r1 r2 H1 H2; inversion H1; inversion H2; subst; split; [apply same_outside_refl|reflexivity].
-      - intros r1 r2 H1 H2. simpl in H1, H2. simpl in Hnn.
+          intros r1 r2 H1 H2 _ _; inversion H1; inversion H2; subst; split; [apply same_outside_refl|reflexivity].
+      - intros r1 r2 H1 H2 NA1 NA2. simpl in H1, H2. simpl in Hnn.
         destruct (match v with PNone => true | _ => false end) eqn:Ev.
         { destruct v; try discriminate. inversion H1; inversion H2; subst. split; [apply same_outside_refl|reflexivity]. }
         assert (H1' : match iter_items v with
@@ -654,7 +737,7 @@ Section Locality.
                       end = Ok r2) by (destruct v; try discriminate; exact H2).
         clear H1 H2. destruct (iter_items v) as [items|]; [|discriminate].
         apply obind_ok in H1' as [[rs1 es1] [Hc1 H1]]. apply obind_ok in H2' as [[rs2 es2] [Hc2 H2]].
-        inversion H1; inversion H2; subst; clear H1 H2. simpl.
+        inversion H1; inversion H2; subst; clear H1 H2. simpl. simpl in NA1, NA2.
         destruct Hl as [Hq Hr]. destruct rest as [|x rest]; [congruence|].
         destruct x as [k|i0].
         + (* the way to q0 goes through a key: no item is on it *)
@@ -669,7 +752,7 @@ Section Locality.
             (rs1 := rs1) (es1 := es1) (rs2 := rs2) (es2 := es2) as [[Hlen Hnth] Hes]; try assumption.
           * intros j y Hne. apply complete_value_eq. specialize (Hl' j). simpl in Hl'.
             destruct (N.eqb_spec i0 j); [congruence|]. exact Hl'.
-          * intros y c1 c2 Hy1 Hy2. specialize (Hl' i0). simpl in Hl'. rewrite N.eqb_refl in Hl'.
+          * intros y c1 c2 Hy1 Hy2 NAc1 NAc2. specialize (Hl' i0). simpl in Hl'. rewrite N.eqb_refl in Hl'.
             assert (W1 : wf_res (p ++ [PIdx i0]) c1)
               by (eapply proj1; eapply (complete_value_wf sch tyres sub1 Hwf1); eassumption).
             assert (W2 : wf_res (p ++ [PIdx i0]) c2)
@@ -681,9 +764,13 @@ Section Locality.
             -- intros Hj. eapply Hnth; try eassumption; try lia.
             -- intros Hj. eapply Hnth; try eassumption; try lia.
       - assert (Hnn' : nn_ok t = true) by (destruct t; simpl in Hnn; auto; discriminate).
-        intros r1 r2 H1 H2. simpl in H1, H2.
+        intros r1 r2 H1 H2 NA1 NA2. simpl in H1, H2.
         apply obind_ok in H1 as [[a1 ea1] [Ha1 H1]]. apply obind_ok in H2 as [[a2 ea2] [Ha2 H2]].
-        destruct (IH p v rest Hnn' Hl _ _ Ha1 Ha2) as [Hso He]. simpl in Hso, He, H1, H2.
+        assert (NAa1 : no_abort ea1).
+        { simpl in H1. destruct a1; inversion H1; subst; simpl in NA1; try exact NA1; apply no_abort_app in NA1; tauto. }
+        assert (NAa2 : no_abort ea2).
+        { simpl in H2. destruct a2; inversion H2; subst; simpl in NA2; try exact NA2; apply no_abort_app in NA2; tauto. }
+        destruct (IH p v rest Hnn' Hl _ _ Ha1 Ha2 NAa1 NAa2) as [Hso He]. simpl in Hso, He, H1, H2.
         destruct Hl as [Hq Hr]. destruct rest as [|x rest]; [congruence|].
         pose proof (same_outside_none _ _ _ _ Hso) as Hnone.
         destruct a1.
@@ -704,6 +791,54 @@ Section Locality.
             inversion H1; inversion H2; subst; split; assumption.
     Qed.
   
+    Lemma items_partial_eq (f1 f2 : path -> pv -> result) (e1 e2 : path -> pv -> list error) p :
+      (forall j x, f1 (p ++ [PIdx j]) x = f2 (p ++ [PIdx j]) x) ->
+      (forall j x, e1 (p ++ [PIdx j]) x = e2 (p ++ [PIdx j]) x) ->
+      forall items i, items_partial f1 e1 p i items = items_partial f2 e2 p i items.
+    Proof.
+      intros Hf He. induction items as [|x items IH]; intros i; simpl; [reflexivity|].
+      rewrite Hf, He, IH. reflexivity.
+    Qed.
+
+    Lemma complete_value_partial_eq nodes : forall t p v,
+      link p Off ->
+      complete_value_partial sch tyres sub1 nodes t p v = complete_value_partial sch tyres sub2 nodes t p v.
+    Proof.
+      induction t as [n|t IH|t IH]; intros p v Hl; simpl; [reflexivity| |apply IH; exact Hl].
+      assert (He : forall items, items_partial (cv1 nodes t) (complete_value_partial sch tyres sub1 nodes t) p 0%N items =
+                                 items_partial (cv2 nodes t) (complete_value_partial sch tyres sub2 nodes t) p 0%N items).
+      { intros items. apply items_partial_eq; intros j x.
+        - apply complete_value_eq. apply (link_step p Off (PIdx j) Hl).
+        - apply IH. apply (link_step p Off (PIdx j) Hl). }
+      destruct v; simpl; try reflexivity; apply He.
+    Qed.
+
+    Lemma complete_field_eq nodes t p v :
+      link p Off ->
+      complete_field sch tyres sub1 nodes t p v = complete_field sch tyres sub2 nodes t p v.
+    Proof.
+      intros Hl. unfold complete_field. rewrite (complete_value_eq nodes t p v Hl).
+      rewrite (complete_value_partial_eq nodes t p v Hl). reflexivity.
+    Qed.
+
+    Lemma abort_result_has_abort (es : list error) p : ~ no_abort (es ++ [Err p [] ECoercion]).
+    Proof. intros H. apply no_abort_app in H as [_ H]. inversion H as [|? ? Hx _]; subst. discriminate Hx. Qed.
+
+    Lemma complete_field_above nodes t p v rest :
+      nn_ok t = true -> link p (Above rest) ->
+      oclaim (Above rest) (complete_field sch tyres sub1 nodes t p v) (complete_field sch tyres sub2 nodes t p v).
+    Proof.
+      intros Hnn Hl r1 r2 H1 H2 NA1 NA2. unfold complete_field in H1, H2.
+      destruct (cv1 nodes t p v) as [c1| |k1 q1|k1] eqn:E1; try discriminate.
+      2:{ destruct (Nat.eqb k1 REJ_COERCION); [|discriminate]. inversion H1; subst.
+          exfalso. eapply abort_result_has_abort; exact NA1. }
+      destruct (cv2 nodes t p v) as [c2| |k2 q2|k2] eqn:E2; try discriminate.
+      2:{ destruct (Nat.eqb k2 REJ_COERCION); [|discriminate]. inversion H2; subst.
+          exfalso. eapply abort_result_has_abort; exact NA2. }
+      inversion H1; inversion H2; subst.
+      exact (complete_value_above nodes t p v rest Hnn Hl _ _ E1 E2 NA1 NA2).
+    Qed.
+
     Notation rf1 := (resolve_field sch coerce_args w1 tyres sub1).
     Notation rf2 := (resolve_field sch coerce_args w2 tyres sub2).
     Notation eg1 := (exec_groups sch coerce_args w1 tyres sub1).
@@ -716,8 +851,8 @@ Section Locality.
       destruct (coerce_args fd node) as [args| | |]; try reflexivity.
       destruct k; try reflexivity.
       - rewrite (Hw p (link_world p Off Hl ltac:(discriminate))).
-        destruct (w2 p parent tname (f_name fd) args); try reflexivity; apply complete_value_eq; exact Hl.
-      - apply complete_value_eq; exact Hl.
+        destruct (w2 p parent tname (f_name fd) args); try reflexivity; apply complete_field_eq; exact Hl.
+      - apply complete_field_eq; exact Hl.
     Qed.
 
     Lemma resolve_field_above tname parent k fd nodes p rest :
@@ -726,13 +861,13 @@ Section Locality.
     Proof.
       intros Hnn Hl. unfold resolve_field. destruct nodes as [|node nodes]; [intros r1 r2 H; discriminate H|].
       assert (Hsame : forall o : result, oclaim (Above rest) o o).
-      { intros o r1 r2 H1 H2. rewrite H1 in H2. inversion H2; subst. split; [apply same_outside_refl|reflexivity]. }
+      { intros o r1 r2 H1 H2 _ _. rewrite H1 in H2. inversion H2; subst. split; [apply same_outside_refl|reflexivity]. }
       destruct (coerce_args fd node) as [args| | |]; try apply Hsame.
       destruct k; try apply Hsame.
       - rewrite (Hw p (link_world p (Above rest) Hl ltac:(discriminate))).
         destruct (w2 p parent tname (f_name fd) args); try apply Hsame;
-          apply complete_value_above; assumption.
-      - apply complete_value_above; assumption.
+          apply complete_field_above; assumption.
+      - apply complete_field_above; assumption.
     Qed.
 
     Lemma exec_groups_ext tname parent p : forall g,
@@ -751,19 +886,21 @@ Section Locality.
       link p (Above (PKey k0 :: rest)) ->
       forall g kvs1 es1 kvs2 es2,
         eg1 tname parent p g = Ok (kvs1, es1) -> eg2 tname parent p g = Ok (kvs2, es2) ->
+        no_abort es1 -> no_abort es2 ->
         Forall2 (fun a b => fst a = fst b /\
                             (fst a = k0 -> same_outside rest (snd a) (snd b)) /\
                             (fst a <> k0 -> snd a = snd b)) kvs1 kvs2 /\
         eoff es1 = eoff es2.
     Proof.
-      intros Hl. induction g as [|[key nodes] g IH]; intros kvs1 es1 kvs2 es2 H1 H2; simpl in H1, H2.
+      intros Hl. induction g as [|[key nodes] g IH]; intros kvs1 es1 kvs2 es2 H1 H2 NA1 NA2; simpl in H1, H2.
       - inversion H1; inversion H2; subst. split; [constructor|reflexivity].
       - destruct nodes as [|node nodes]; [discriminate|].
         destruct (field_definition sch tname (sel_name node)) as [[[k fd]|]| | |] eqn:Ed; simpl in H1, H2; try discriminate.
         + apply obind_ok in H1 as [[a1 ea1] [Ha1 H1]]. apply obind_ok in H1 as [[kv1 e1] [Hr1 H1]].
           apply obind_ok in H2 as [[a2 ea2] [Ha2 H2]]. apply obind_ok in H2 as [[kv2 e2] [Hr2 H2]].
           inversion H1; inversion H2; subst; clear H1 H2.
-          destruct (IH _ _ _ _ Hr1 Hr2) as [Hf He].
+          apply no_abort_app in NA1 as [NA1a NA1b]. apply no_abort_app in NA2 as [NA2a NA2b].
+          destruct (IH _ _ _ _ Hr1 Hr2 NA1b NA2b) as [Hf He].
           pose proof (field_definition_nn sch Hsch _ _ _ _ Ed) as Hnn.
           pose proof (link_step p _ (PKey key) Hl) as Hl'. simpl in Hl'.
           assert (Hhead : ((key = k0 -> same_outside rest a1 a2) /\ (key <> k0 -> a1 = a2)) /\ eoff ea1 = eoff ea2).
@@ -776,7 +913,7 @@ Section Locality.
               + split; [split; [intros _; exact I|congruence]|].
                 pose proof (wf_under _ _ W1 Hl') as X1. pose proof (wf_under _ _ W2 Hl') as X2.
                 simpl in X1, X2. rewrite X1, X2. reflexivity.
-              + destruct (resolve_field_above tname parent k fd (node :: nodes) _ _ Hnn Hl' _ _ Ha1 Ha2) as [Hso Hee].
+              + destruct (resolve_field_above tname parent k fd (node :: nodes) _ _ Hnn Hl' _ _ Ha1 Ha2 NA1a NA2a) as [Hso Hee].
                 split; [split; [intros _; exact Hso|congruence]|exact Hee].
             - rewrite (resolve_field_eq tname parent k fd (node :: nodes) _ Hl') in Ha1.
               rewrite Ha1 in Ha2. inversion Ha2; subst.
@@ -803,13 +940,13 @@ Section Locality.
         rewrite (exec_groups_ext (ex1 fuel) (ex2 fuel) tname v p g); [reflexivity|].
         intros key k fd nodes. apply resolve_field_eq; [exact IH|]. apply (link_step p Off (PKey key) Hl).
       + exact I.
-      + intros r1 r2 H1 H2. simpl in H1, H2.
+      + intros r1 r2 H1 H2 NA1 NA2. simpl in H1, H2.
         apply obind_ok in H1 as [g [Hg H1]]. rewrite Hg in H2. simpl in H2.
         apply obind_ok in H1 as [[kvs1 es1] [He1 H1]]. apply obind_ok in H2 as [[kvs2 es2] [He2 H2]].
-        inversion H1; inversion H2; subst; clear H1 H2. simpl.
+        inversion H1; inversion H2; subst; clear H1 H2. simpl. simpl in NA1, NA2.
         destruct Hl as [Hq Hr]. destruct rest as [|x rest]; [congruence|].
         destruct x as [k0|i0].
-        * destruct (exec_groups_above (ex1 fuel) (ex2 fuel) IH W1 W2 tname v p k0 rest (conj Hq Hr) g _ _ _ _ He1 He2) as [Hf Hee].
+        * destruct (exec_groups_above (ex1 fuel) (ex2 fuel) IH W1 W2 tname v p k0 rest (conj Hq Hr) g _ _ _ _ He1 He2 NA1 NA2) as [Hf Hee].
           split; [|exact Hee]. right. exists kvs1, kvs2. auto.
         * rewrite (exec_groups_ext (ex1 fuel) (ex2 fuel) tname v p g) in He1.
           -- rewrite He1 in He2. inversion He2; subst. split; [left; reflexivity|reflexivity].
@@ -826,14 +963,15 @@ Theorem exec_sel_locality sch frags vs coerce_args tyres cfuel w1 w2 q0 :
   forall fuel tname v sels d1 es1 d2 es2,
     exec_sel sch frags vs coerce_args w1 tyres cfuel fuel tname v [] sels = Ok (d1, es1) ->
     exec_sel sch frags vs coerce_args w2 tyres cfuel fuel tname v [] sels = Ok (d2, es2) ->
+    no_abort es1 -> no_abort es2 ->
     same_outside q0 d1 d2 /\ errors_off q0 es1 = errors_off q0 es2.
 Proof.
-  intros Hsch Hw fuel tname v sels d1 es1 d2 es2 H1 H2.
+  intros Hsch Hw fuel tname v sels d1 es1 d2 es2 H1 H2 NA1 NA2.
   destruct q0 as [|x rest] eqn:Eq.
   - split; [exact I|]. unfold errors_off. simpl.
     assert (Hn : forall es : list error, filter (fun _ : error => false) es = []) by (induction es; auto).
     rewrite !Hn. reflexivity.
   - assert (Hl : x :: rest = [] ++ x :: rest /\ x :: rest <> []) by (split; [reflexivity|discriminate]).
     exact (exec_sel_local sch frags vs coerce_args tyres cfuel w1 w2 (x :: rest) Hsch Hw
-             fuel tname v [] sels (Above (x :: rest)) Hl _ _ H1 H2).
+             fuel tname v [] sels (Above (x :: rest)) Hl _ _ H1 H2 NA1 NA2).
 Qed.
